@@ -55,6 +55,10 @@ func cmDirect() cmAPI {
 			case m.SendQueue(a) <- p:
 			default:
 			}
+			// The harness's own send is not something snowflake does (its writer sends
+			// under the map's lock); a second call orders it before every later sweep,
+			// so that the race detector never sees the harness's send next to a close.
+			m.SendQueue(a)
 		},
 	}
 }
@@ -382,12 +386,85 @@ func cmBatch(res *vlib.Result, st *cmStats, api cmAPI, r *vlib.Rand, id string) 
 			refreshTrial(res, st, api, tr, fmt.Sprintf("%s/refresh/%d", id, i), addr("refr", i))
 		}()
 	}
+	if api.name == "QueuePacketConn" {
+		// the server's way of using the map: a writer (KCP's output) queues its last
+		// packets for a client and then never touches the map again; a reader (the
+		// carrier's goroutine) drains the queue until the expiry sweep closes it
+		for i := 0; i < 8; i++ {
+			i := i
+			tr := r.SplitN("lastwrite", i)
+			wg.Add(1)
+			go func() {
+				defer wg.Done()
+				lastWriteTrial(res, st, api, tr, fmt.Sprintf("%s/lastwrite/%d", id, i), addr("lwrt", i))
+			}()
+		}
+	}
 	wg.Wait()
 	st.mu.Lock()
 	st.idle += 24
 	st.cont += 8
 	st.refr += 8
 	st.mu.Unlock()
+}
+
+// lastWriteTrial: a writer goroutine queues 1..3 packets and ends; nothing
+// refreshes the entry afterwards; a reader obtained the queue beforehand and
+// must receive exactly those packets, in order, and then see the queue closed
+// no earlier than one timeout after the writer's last call began. (Under the
+// race detector this is also the schedule in which a queue is closed after a
+// write that no later operation of the writer orders before the sweep.)
+func lastWriteTrial(res *vlib.Result, st *cmStats, api cmAPI, r *vlib.Rand, id string, a net.Addr) {
+	res.Eval(1)
+	rep := cmReplay{Case: id, API: api.name, Trial: "last-write-then-silence", TimeoutMs: ms(cmTimeout)}
+	first := time.Now()
+	ch := api.get(a)
+	n := r.Range(1, 3)
+	var want [][]byte
+	for i := 0; i < n; i++ {
+		want = append(want, mkPkt('L', uint32(i), uint32(n), 24+i))
+	}
+	lastStart := make(chan time.Time, 1)
+	go func() {
+		var t0 time.Time
+		for _, p := range want {
+			t0 = time.Now()
+			api.push(a, append([]byte(nil), p...))
+		}
+		lastStart <- t0
+	}()
+	got := 0
+	deadline := time.After(40 * cmTimeout)
+	for {
+		select {
+		case p, ok := <-ch:
+			if !ok {
+				t0 := <-lastStart
+				idle := time.Since(t0)
+				rep.ClosedMs = ms(time.Since(first))
+				if got != n {
+					res.Violatef("clientmap:contents-lost", rep, "%s: the queue was closed after yielding %d of the %d packets written to it", api.name, got, n)
+					return
+				}
+				if idle < cmTimeout {
+					res.Violatef("clientmap:closed-before-timeout", rep, "%s: queue observed closed %v after the START of the writer's last call; timeout is %v", api.name, idle, cmTimeout)
+					return
+				}
+				st.closure(idle)
+				res.Distinct(id)
+				res.Obs("clientmap_last_write_trials", 1)
+				return
+			}
+			if got >= n || string(p) != string(want[got]) {
+				res.Violatef("clientmap:unexpected-content", rep, "%s: packet %d read from the queue is not the packet written %d-th", api.name, got, got)
+				return
+			}
+			got++
+		case <-deadline:
+			neverClosed(res, st, api, a, ch, rep)
+			return
+		}
+	}
 }
 
 func runClientMap(res *vlib.Result, root *vlib.Rand) {
